@@ -98,7 +98,7 @@ def realise_enum_alias(g, aliases_twice=False, qualified=False):
 # declarations that have nothing to do with the graph, placed before / after it: a block whose LAST variable is an in-out
 # variable, a program that ends with an external declaration, a configuration - whether a unit is recursive does not depend
 # on what else is declared, nor on where
-CONTEXT_BEFORE = ("FUNCTION_BLOCK CTX_PRE\n  VAR_INPUT\n    e : BOOL;\n  END_VAR\n  VAR_IN_OUT\n    c : INT;\n  END_VAR\n  c := c + 1;\nEND_FUNCTION_BLOCK\n"
+CONTEXT_BEFORE = ("FUNCTION_BLOCK CTX_PRE\n  VAR_INPUT\n    e : BOOL;\n  END_VAR\n  VAR\n    d : INT;\n  END_VAR\n  VAR_IN_OUT\n    c : INT;\n  END_VAR\n  d := c + 1;\nEND_FUNCTION_BLOCK\n"
                   "PROGRAM CTX_PRG\n  VAR\n    n : INT;\n  END_VAR\n  VAR_EXTERNAL\n    gx : INT;\n  END_VAR\n  n := gx;\nEND_PROGRAM\n")
 CONTEXT_AFTER = ("CONFIGURATION CTX_CFG\n  VAR_GLOBAL\n    gx : INT := 1;\n  END_VAR\n  RESOURCE R ON PLC\n    TASK T (INTERVAL := T#10ms, PRIORITY := 1);\n"
                  "    PROGRAM I WITH T : CTX_PRG;\n  END_RESOURCE\nEND_CONFIGURATION\n")
